@@ -102,6 +102,21 @@ PROPS = {
         "assumptions": ["keyword arguments are strings, stringers, nil or other non-stringer values (a Stack/Condition passed as keyword is not generated)",
                         "every per-call theorem is for an arbitrary state, hence for the state reached by any history"],
     },
+    "C18": {
+        "lean": ["Stackage.Props.C18"],
+        "streams": [{"name": "opts", "quick": 3000, "thorough": 60000}],
+        "rule": "enumeration first: every sequence of {set, clear, toggle} x the 8 Stack options (then x the 4 options a Condition exposes) "
+                "up to length 2 (quick) / 3 (thorough); then random histories (1..12 calls, thorough 1..40) on Stacks of every kind and on "
+                "Conditions mixing tri-state setters (direct and through the deprecated aliases), SetFIFO, SetID/SetCategory, SetDelimiter "
+                "(string/rune/nil/foreign), SetSymbol, SetEncap (strings, pairs, clashing pairs, 1- and 3-element and empty slices, no "
+                "argument), SetAuxiliary, Set/UnsetLogLevel by name (any case, unknown names), LogLevel constant and raw int incl. 0, 65535, "
+                "out-of-range and negative; after every call the full dump (VerifDump: option word, FIFO, symbol, delimiter, encapsulation, "
+                "ID, category, level word, aux identity, content length) and every public getter are compared; non-trivial = at least 2 calls",
+        "modelled": COMMON_MODELLED + ["auxiliary maps by identity; id 0 = a map the library allocated itself",
+                                       "strings.ToUpper on level names: ASCII plus U+0131/U+017F (the only code points whose upper case is ASCII)"],
+        "assumptions": ["SetID(\"_random\"/\"_addr\") (generated IDs) is excluded: the generator never produces the two magic words",
+                        "the model follows the repaired SetEncap (F21: an empty []string is ignored)"],
+    },
 }
 
 
@@ -180,6 +195,7 @@ PROJ = {
     "C13": _keep("L", "I", "N", "G"),
     "C14": _keep("L", "I", "R"),
     "C15": _keep("ret", "L", "I"),
+    "C18": lambda out: out,   # everything the opts stream prints is a C18 observable
 }
 
 
@@ -204,6 +220,8 @@ def nontrivial(pid, payload):
         return any(len(o.split(" ")) >= 3 for o in ops)
     if pid == "C02":
         return payload.count(" ") >= 6
+    if pid == "C18":
+        return " | " in payload and len(ops) >= 2
     if pid in ("C13", "C14", "C06"):
         return len(ops) >= 2
     return len(ops) >= 3 and len(kinds) >= 2
